@@ -48,8 +48,17 @@ def run(ctx):
     BM = MT + ".BaseMatcher"
     crosscheck(ctx, "C02.R1", BM + ".__init__", REF, "basematcher_init", BM,
                "{} / [] / None by kind; one slot per child")
-    crosscheck(ctx, "C02.R1", BM + ".addValue", REF, "addValue", BM,
-               "store / append / map-store / map-append")
+    from rules.common import raw_param_uses
+    av = m.fn(BM + ".addValue")
+    raw = raw_param_uses(P, av, 0)
+    if raw:
+        run.fail("C02.R1", av.qualname, "key as written",
+                 "the wildcard map is consulted with the key as written, not "
+                 "the normalised key: %s" % "; ".join(raw),
+                 loc=m.loc(av, av.node), witness={"uses": raw})
+    else:
+        crosscheck(ctx, "C02.R1", BM + ".addValue", REF, "addValue", BM,
+                   "store / append / map-store / map-append")
     crosscheck(ctx, "C02.R1", BM + ".addSection", REF, "addSection", BM,
                "append for multi, store for single")
     crosscheck(ctx, "C02.R1", BM + ".finish", REF, "finish", BM,
@@ -65,6 +74,16 @@ def run(ctx):
     crosscheck(ctx, "C02.R2", INF + ".ValueInfo.convert", REF,
                "valueinfo_convert", INF + ".ValueInfo",
                "convert with the given datatype, wrap ValueError")
+
+    for q, ref in ((INF + ".BaseKeyInfo.prepare_raw_defaults",
+                    "prepare_raw_defaults"),
+                   (INF + ".KeyInfo.computedefault", "key_computedefault"),
+                   (INF + ".MultiKeyInfo.computedefault",
+                    "multikey_computedefault")):
+        crosscheck(ctx, "C02.R2", q, "ref_info.py", ref,
+                   q.rsplit(".", 1)[0],
+                   "wildcard defaults are keyed by the key type applied to "
+                   "the key as written in the schema")
 
     # R3: order-changing operations in matcher.py
     n_scanned = 0
